@@ -79,7 +79,7 @@ def crc32c_ref(data):
     return (crc ^ 0xFFFFFFFF).to_bytes(4, "little")
 
 
-def foreign_encode(rng, dag, roots=None, freedoms=True):
+def foreign_encode(rng, dag, roots=None, freedoms=True, force=None):
     """Encode the cells of `dag` (children-first list) as a conforming BoC using random admissible choices.
     Returns (bytes, root indices into dag, description)."""
     n = len(dag)
@@ -99,6 +99,8 @@ def foreign_encode(rng, dag, roots=None, freedoms=True):
     min_size = max(1, (n.bit_length() + 7) // 8)
     size = rng.randint(min_size, 4) if freedoms else min_size
     magic = rng.choice(["reach", "reach", "reach", "idx", "idxcrc"]) if freedoms and len(roots) == 1 else "reach"
+    if force:
+        size, magic = force["size"], force["magic"]
     with_hashes = freedoms and rng.random() < 0.3
     body_cells = [node_bytes(dag[i][0], dag[i][1], masks[i], [pos[r] for r in dag[i][2]], size,
                              with_hashes and rng.random() < 0.7, rng) for i in order]
@@ -107,11 +109,15 @@ def foreign_encode(rng, dag, roots=None, freedoms=True):
         has_idx = rng.random() < 0.5 if freedoms else False
         has_crc = rng.random() < 0.5 if freedoms else False
         has_cache = has_idx and freedoms and rng.random() < 0.4
+        if force:
+            has_idx, has_crc, has_cache = force.get("idx", False), force.get("crc", False), False
     else:
         has_idx, has_crc, has_cache = True, magic == "idxcrc", False
     max_off = len(payload) * (2 if has_cache else 1)
     min_off = max(1, (max_off.bit_length() + 7) // 8)
     off = rng.randint(min_off, 8) if freedoms else min_off
+    if force:
+        off = force["off"]
     if magic == "reach":
         out = bytes.fromhex("b5ee9c72") + bytes([128 * has_idx + 64 * has_crc + 32 * has_cache + size])
     elif magic == "idx":
